@@ -104,3 +104,16 @@ CHECKS["C14"] = {
     "note": TRUST + " quick caps the pair/triple sections at the stated pools (reported as pools, not caps); a mounted sub-application claims its subtree and a matching domain "
             "sub-application is final, as the code documents.",
 }
+
+CHECKS["C12"] = {
+    "engine": "STREAM",
+    "design_ref": "§3 C12, §2.5, §2.6",
+    "technique": "exhaustive frame-token sequence x segmentation enumeration on the real WebSocketReader vs an RFC 6455/7692 reference decoder",
+    "text": "All sequences of up to 2 tokens over the full frame alphabet (about 60 tokens: valid TEXT/BINARY/CONTINUATION/PING/PONG/CLOSE in every fin/mask/length "
+            "form, one token per violation class of the statement, sizes max-1/max/max+1, compressed and decompression-bomb tokens) and up to 3 (4 in thorough) over a "
+            "core alphabet, for 5-7 (compress, decode_text, max_msg_size) configurations, are fed to the real reader whole, under every single cut, every pair of cuts "
+            "and byte-at-a-time.  Messages up to the first violation, the close code, 'nothing delivered after the error', independence of segmentation and the "
+            "retained-bytes bound are checked on every run.",
+    "note": TRUST + " The protocol object behind the data queue is a pause/resume stub; non-minimal length encodings and mask direction are not judged; "
+            "for a corrupt deflate stream any error is accepted (no code is specified).",
+}
